@@ -273,10 +273,10 @@ STATE_JOBS = [
     S("h_driver", drv(7, 1, n=2, cp=1, user=0), ["state.first_iteration_uses", "state.iteration_uses_refinement"]),
     S("h_driver", drv(7, 2, n=2, cp=1, user=1), ["state.first_iteration_uses", "state.iteration_uses_refinement"]),
     S("h_driver", drv(7, 2, n=2, cp=1, user=0), ["state.first_iteration_uses", "state.iteration_uses_refinement"]),
-    S("h_driver", drv(7, 1, n=3, cp=0, user=1), ["state.iteration_uses_refinement"], tiers=T),
-    S("h_driver", drv(7, 2, n=3, cp=0, user=1), ["state.iteration_uses_refinement"], tiers=T),
+    S("h_driver", drv(7, 1, n=3, cp=0, user=1, fk=1), ["state.iteration_uses_refinement"], tiers=T, split=12),
+    S("h_driver", drv(7, 2, n=3, cp=0, user=1, fk=1), ["state.iteration_uses_refinement"], tiers=T, split=12),
     S("h_driver", drv(7, 1, n=2, cp=0, user=1, B=3), ["state.iteration_uses_refinement"], tiers=T),
-    S("h_driver", drv(7, 2, n=2, cp=0, user=1, C=3), ["state.iteration_uses_refinement"], tiers=T),
+    S("h_driver", drv(7, 2, n=2, cp=0, user=1, C=3, fk=1), ["state.iteration_uses_refinement"], tiers=T, split=12),
 ]
 PLAN["C19"] = dict(functions=DRIVER_FUNCS, bounds=DRIVER_BOUNDS, outside="more iterations; the MPI variants are checked in C04's harness",
                    assumptions=DRIVER_ASSUME,
@@ -620,3 +620,13 @@ for _p in ("C02", "C06"):
     PLAN[_p]["jobs"] = PLAN[_p]["jobs"] + FP_PLAIN_JOBS
     PLAN[_p]["assumptions"] = PLAN[_p]["assumptions"] + ["jobs named @24fp/@53fp: PLAIN iteration in the bit-precise IEEE model (counters, guard against non-finite "
         "values, sums for N <= 2 where compensated and plain summation coincide bit for bit); algebraic identities are not asserted there"]
+
+CR_JOBS = [S("h_iteration", it(2, N=2, d=1, C=2, fk=2, jk=1, cr=1), ["multi_channel.call_protocol_order", "iteration.integrand_called_exactly"])]
+for _p in ("C17", "C02"):
+    PLAN[_p]["jobs"] = PLAN[_p]["jobs"] + CR_JOBS
+PLAN["C11"]["jobs"] = PLAN["C11"]["jobs"] + [S("h_distribution", dict(ob=1, bx=2, by=1, N=1), ["bin.holds_exactly"]),
+                                             S("h_distribution", dict(ob=1, bx=3, by=1, N=2), ["bin.holds_exactly"], tiers=T, split=8)]
+D2_JOBS = [S("h_driver", drv(0, 1, n=1, cp=0, d=2, user=1), ["final_checkpoint.read_back", "resume.final_text_identical"]),
+           S("h_driver", drv(0, 1, n=2, cp=0, d=2, B=2), ["final_checkpoint.read_back"], split=4)]
+for _p in ("C03", "C05"):
+    PLAN[_p]["jobs"] = PLAN[_p]["jobs"] + D2_JOBS
